@@ -38,7 +38,10 @@ Points == { "nochannel", "open", "inflight", "handling", "proposing", "subopen",
    Classes that only exist at these points: *)
 Special ==
   [ proposing  |-> { "p-propacc-match-sub", "p-propacc-match-virtual", "p-propacc-match-ledger", "p-propacc-match-ledger-nopart",
-                     "p-proprej-match", "s-propacc-match-sub", "s-proprej-match" },
+                     "p-proprej-match", "s-propacc-match-sub", "s-proprej-match",
+                     \* P accepts the proposal and then answers H's signature of the initial state of the NEW channel with a
+                     \* rejection / a signature that is none / a response for version 1
+                     "p-open-rej-v0", "p-open-accbad-v0", "p-open-acc-v1" },
     subopen    |-> { "p-update-withdraw-early", "p-update-fund-again", "p-subupdate-valid", "p-subupdate-badsig" },
     subsettled |-> { "p-update-refund-sub", "p-update-withdraw-again", "p-subupdate-settled" },
     hub        |-> { "p-vsettle-lone", "x-vsettle", "x-vsettle-late", "p-vfund2-lone", "x-vfund2", "x-vfund2-late",
